@@ -19,10 +19,13 @@ import (
 	"hash/fnv"
 	"math"
 	"net"
+	"net/http"
+	"net/rpc"
 	"os"
 	"path/filepath"
 	"reflect"
 	"regexp"
+	"runtime"
 	"sort"
 	"strings"
 	"testing"
@@ -688,6 +691,188 @@ func v16StartupDecode(kinds []int) (c *v16Config, errs []string) {
 	return
 }
 
+// v16RealStartup runs the real RunRPCServer (non-blocking form, port 0) against the viper that has just read the
+// file and returns what it configured, as it announces it to clients: the SIMPULSE / TRIANGLE / LANCERO / ABACO /
+// ROACH / STATUS / WRITING updates it sends while starting. The listener and the heartbeat goroutine it
+// leaves behind cannot be stopped from outside (they are leaked, a few hundred per worker).
+func v16RealStartup() (c *v16Config, seen map[int]bool, panicMsg string) {
+	c = &v16Config{writing: &WritingState{}}
+	seen = map[int]bool{}
+	orig := clientMessageChan
+	ch := make(chan ClientUpdate, 256)
+	clientMessageChan = ch
+	// RunRPCServer registers its RPC handler on the default HTTP mux (from the goroutine it starts), which can
+	// be done once per mux: every call gets a fresh one, and the call is over when the registration is there.
+	mux := http.NewServeMux()
+	http.DefaultServeMux = mux
+	defer func() {
+		if panicMsg != "" {
+			return
+		}
+		req, _ := http.NewRequest("CONNECT", rpc.DefaultRPCPath, nil)
+		for i := 0; ; i++ {
+			if _, pat := mux.Handler(req); pat != "" {
+				return
+			}
+			if i > 1000000 {
+				v16Infra("RunRPCServer's listener goroutine never registered its handler")
+			}
+			runtime.Gosched()
+			if i%1000 == 999 {
+				time.Sleep(time.Millisecond)
+			}
+		}
+	}()
+	func() {
+		defer func() {
+			clientMessageChan = orig
+			if e := recover(); e != nil {
+				panicMsg = fmt.Sprint(e)
+			}
+		}()
+		RunRPCServer(0, false)
+	}()
+	for {
+		select {
+		case u := <-ch:
+			switch st := u.state.(type) {
+			case *SimPulseSourceConfig:
+				c.simpulse, seen[v16kSimPulse] = *st, true
+			case *TriangleSourceConfig:
+				c.triangle, seen[v16kTriangle] = *st, true
+			case *LanceroSourceConfig:
+				c.lancero, seen[v16kLancero] = *st, true
+			case *AbacoSourceConfig:
+				c.abaco, seen[v16kAbaco] = *st, true
+			case *RoachSourceConfig:
+				c.roach, seen[v16kRoach] = *st, true
+			case ServerStatus:
+				c.status, seen[v16kStatus] = st, true
+			case *WritingState:
+				if u.tag == "WRITING" {
+					c.writing, seen[v16kWriting] = st, true
+				}
+			}
+		default:
+			return
+		}
+	}
+}
+
+// v16Announceable: a source configuration reaches the file only through the SIMPULSE / TRIANGLE update that
+// the Configure...Source RPC sends after the source's Configure has returned. A value on which Configure panics
+// takes the RPC goroutine down before that, so it can never have been saved: outside "all values of the
+// persisted structures".
+func v16Announceable(c *v16Config) (ok bool) {
+	defer func() {
+		if recover() != nil {
+			ok = false
+		}
+	}()
+	sp, tr := c.simpulse, c.triangle
+	NewSimPulseSource().Configure(&sp)
+	NewTriangleSource().Configure(&tr)
+	return true
+}
+
+func v16IntSet(v []int) string {
+	m := map[int]bool{}
+	for _, x := range v {
+		m[x] = true
+	}
+	var k []int
+	for x := range m {
+		k = append(k, x)
+	}
+	sort.Ints(k)
+	return fmt.Sprint(k)
+}
+
+func v16StrSet(v []string) string {
+	m := map[string]bool{}
+	for _, x := range v {
+		m[x] = true
+	}
+	var k []string
+	for x := range m {
+		k = append(k, x)
+	}
+	sort.Strings(k)
+	return fmt.Sprint(k)
+}
+
+// v16CompareReal judges what the real start-up configured against what was saved: the part of each structure
+// that is the user's choice (lists that Configure de-duplicates and sorts are compared as sets; what Configure
+// computes from the machine -- available cards, the Lancero firmware table -- is left out), with the
+// normalisations start-up documents (Nchan 0 -> 1; Npresamp <= 0 -> 400; Nsamples <= Npresamp -> 2 Npresamp).
+func v16CompareReal(saved, got *v16Config, seen map[int]bool, kinds []int, panicMsg string) (cls, text string) {
+	if panicMsg != "" {
+		return "c16b-startup-panics", "the next start-up (RunRPCServer) panics on the saved configuration: " + panicMsg
+	}
+	for _, k := range kinds {
+		if k == v16kTrigger || k == v16kMapFile {
+			continue
+		}
+		if !seen[k] {
+			return "c16b-startup-skips-" + strings.ToLower(v16Tags[k]), "start-up did not configure/announce " + v16Tags[k] + " although the file holds it"
+		}
+		var a, b interface{}
+		switch k {
+		case v16kSimPulse:
+			w := saved.simpulse
+			if w.Nchan == 0 {
+				w.Nchan = 1
+			}
+			a, b = w, got.simpulse
+		case v16kTriangle:
+			w := saved.triangle
+			if w.Nchan == 0 {
+				w.Nchan = 1
+			}
+			a, b = w, got.triangle
+		case v16kLancero:
+			type proj struct {
+				FiberMask                              uint32
+				CardDelay                              []int
+				ActiveCards                            string
+				ShouldAutoRestart                      bool
+				FirstRow, ChanSepCards, ChanSepColumns int
+			}
+			mk := func(l LanceroSourceConfig) proj {
+				return proj{l.FiberMask, l.CardDelay, fmt.Sprint(l.ActiveCards), l.ShouldAutoRestart, l.FirstRow, l.ChanSepCards, l.ChanSepColumns}
+			}
+			a, b = mk(saved.lancero), mk(got.lancero)
+		case v16kAbaco:
+			type proj struct {
+				Active, Hosts string
+				U             AbacoUnwrapOptions
+			}
+			mk := func(c AbacoSourceConfig) proj {
+				return proj{v16IntSet(c.ActiveCards), v16StrSet(c.HostPortUDP), c.AbacoUnwrapOptions}
+			}
+			a, b = mk(saved.abaco), mk(got.abaco)
+		case v16kRoach:
+			a, b = saved.roach, got.roach
+		case v16kStatus:
+			type proj struct{ Npresamp, Nsamples int }
+			w := proj{saved.status.Npresamp, saved.status.Nsamples}
+			if w.Npresamp <= 0 {
+				w.Npresamp = 400
+			}
+			if w.Nsamples <= w.Npresamp {
+				w.Nsamples = 2 * w.Npresamp
+			}
+			a, b = w, proj{got.status.Npresamp, got.status.Nsamples}
+		case v16kWriting:
+			a, b = struct{ BasePath string }{saved.writing.BasePath}, struct{ BasePath string }{got.writing.BasePath}
+		}
+		if c, t := v16Diff(a, b, nil); c != "" || t != "" {
+			return "c16b-realstartup-" + strings.ToLower(v16Tags[k]) + ":" + c, "run 2 (real RunRPCServer): " + v16Tags[k] + " as configured at start-up differs from what was saved: " + t
+		}
+	}
+	return "", ""
+}
+
 // what PrepareRun deliberately does not restore
 var v16TriggerSkip = map[string]bool{"EdgeMulti": true, "EMTState": true}
 
@@ -756,7 +941,7 @@ func v16PrepareRunCheck(saved []FullTriggerState, stage string) (cls, text strin
 // re-publishes only the topics in `kinds` with the values of v2 and saves, run 3 starts from the file.
 // lean: only the topics in `kinds` (and one no-save topic) exist at all — used for the large trigger
 // family, whose cost is otherwise dominated by encoding and decoding the unrelated topics.
-func v16RoundTrip(x *vexp.X, v1, v2 *v16Config, kinds []int, withPrepareRun bool, lean bool) vexp.Result {
+func v16RoundTrip(x *vexp.X, v1, v2 *v16Config, kinds []int, withPrepareRun bool, lean bool, realStartup ...bool) vexp.Result {
 	all := v16AllKinds
 	if lean {
 		all = kinds
@@ -808,6 +993,13 @@ func v16RoundTrip(x *vexp.X, v1, v2 *v16Config, kinds []int, withPrepareRun bool
 	}
 	if c, t := v16Compare(v1, read, all, "run 2"); t != "" {
 		return fail(c, t)
+	}
+	if len(realStartup) > 0 && realStartup[0] && v16Announceable(v1) {
+		got, seen, pm := v16RealStartup()
+		x.Steps++
+		if c, t := v16CompareReal(v1, got, seen, all, pm); t != "" {
+			return fail(c, t)
+		}
 	}
 	for _, k := range v16NoSaveKeys {
 		if viper.IsSet(k) {
@@ -1005,7 +1197,7 @@ func TestVerifC16(t *testing.T) {
 			v1, v2 := *base1, *base2
 			v1.status = mk(lp, p, g, pj, run, sn, nc)
 			v2.status = mk((lp+1)%len(lenPairs), (p+1)%len(periods), (g+1)%len(groups), 1-pj, 1-run, (sn+1)%len(srcNames), 1-nc)
-			res := v16RoundTrip(x, &v1, &v2, []int{v16kStatus, v16kWriting}, false, false)
+			res := v16RoundTrip(x, &v1, &v2, []int{v16kStatus, v16kWriting}, false, false, g+pj+run+sn+nc == 0)
 			res.Nontrivial = res.Nontrivial || v16Nontrivial(v1.status)
 			res.Desc = fmt.Sprintf("STATUS %+v", v1.status)
 			return res
@@ -1059,7 +1251,7 @@ func TestVerifC16(t *testing.T) {
 		v1.writing = &WritingState{BasePath: v16BasePaths[i], Active: act == 1, Paused: act == 1, FilenamePattern: "p_%s.%s", WriteOFF: act == 1,
 			ExperimentStateFilename: "/x/experiment_state.txt", ExperimentStateLabel: "START", ExperimentStateLabelUnixNano: 1614834367500000000}
 		v2.writing = &WritingState{BasePath: v16BasePaths[(i+1)%len(v16BasePaths)], Active: act == 0}
-		res := v16RoundTrip(x, &v1, &v2, []int{v16kWriting, v16kMapFile}, false, false)
+		res := v16RoundTrip(x, &v1, &v2, []int{v16kWriting, v16kMapFile}, false, false, true)
 		res.Nontrivial = res.Nontrivial || v16BasePaths[i] != ""
 		res.Desc = fmt.Sprintf("WRITING BasePath=%q", v16BasePaths[i])
 		return res
@@ -1094,7 +1286,7 @@ func TestVerifC16(t *testing.T) {
 		i := x.Choose(len(sims))
 		v1, v2 := *base1, *base2
 		v1.simpulse, v2.simpulse = sims[i], sims[(i+1)%len(sims)]
-		res := v16RoundTrip(x, &v1, &v2, []int{v16kSimPulse}, false, false)
+		res := v16RoundTrip(x, &v1, &v2, []int{v16kSimPulse}, false, false, true)
 		res.Nontrivial = res.Nontrivial || v16Nontrivial(sims[i])
 		res.Desc = fmt.Sprintf("SIMPULSE %+v", sims[i])
 		return res
@@ -1103,7 +1295,7 @@ func TestVerifC16(t *testing.T) {
 		i := x.Choose(len(tris))
 		v1, v2 := *base1, *base2
 		v1.triangle, v2.triangle = tris[i], tris[(i+1)%len(tris)]
-		res := v16RoundTrip(x, &v1, &v2, []int{v16kTriangle}, false, false)
+		res := v16RoundTrip(x, &v1, &v2, []int{v16kTriangle}, false, false, true)
 		res.Nontrivial = res.Nontrivial || v16Nontrivial(tris[i])
 		res.Desc = fmt.Sprintf("TRIANGLE %+v", tris[i])
 		return res
@@ -1112,7 +1304,7 @@ func TestVerifC16(t *testing.T) {
 		i := x.Choose(len(lans))
 		v1, v2 := *base1, *base2
 		v1.lancero, v2.lancero = lans[i], lans[(i+1)%len(lans)]
-		res := v16RoundTrip(x, &v1, &v2, []int{v16kLancero}, false, false)
+		res := v16RoundTrip(x, &v1, &v2, []int{v16kLancero}, false, false, true)
 		res.Nontrivial = res.Nontrivial || v16Nontrivial(lans[i])
 		res.Desc = fmt.Sprintf("LANCERO %+v", lans[i])
 		return res
@@ -1124,7 +1316,13 @@ func TestVerifC16(t *testing.T) {
 			v1, v2 := *base1, *base2
 			v1.abaco = AbacoSourceConfig{ActiveCards: intLists[ac], AvailableCards: intLists[(ac+2)%3], HostPortUDP: strLists[hp], AbacoUnwrapOptions: mkUnwrap(bits, ra, ps, inv)}
 			v2.abaco = AbacoSourceConfig{ActiveCards: intLists[(ac+1)%3], AvailableCards: intLists[ac], HostPortUDP: strLists[(hp+1)%3], AbacoUnwrapOptions: mkUnwrap(7-bits, (ra+1)%3, (ps+1)%3, (inv+1)%3)}
-			res := v16RoundTrip(x, &v1, &v2, []int{v16kAbaco}, false, false)
+			nz := 0
+			for _, c := range []int{ps, inv, ac, hp} {
+				if c != 0 {
+					nz++
+				}
+			}
+			res := v16RoundTrip(x, &v1, &v2, []int{v16kAbaco}, false, false, nz <= 1)
 			res.Nontrivial = res.Nontrivial || v16Nontrivial(v1.abaco)
 			res.Desc = fmt.Sprintf("ABACO %+v", v1.abaco)
 			return res
@@ -1135,7 +1333,13 @@ func TestVerifC16(t *testing.T) {
 			v1, v2 := *base1, *base2
 			v1.roach = RoachSourceConfig{HostPort: strLists[hp], Rates: rates[rt], AbacoUnwrapOptions: mkUnwrap(bits, ra, ps, inv)}
 			v2.roach = RoachSourceConfig{HostPort: strLists[(hp+1)%3], Rates: rates[(rt+1)%3], AbacoUnwrapOptions: mkUnwrap(7-bits, (ra+1)%3, (ps+1)%3, (inv+1)%3)}
-			res := v16RoundTrip(x, &v1, &v2, []int{v16kRoach}, false, false)
+			nz := 0
+			for _, c := range []int{ps, inv, hp, rt} {
+				if c != 0 {
+					nz++
+				}
+			}
+			res := v16RoundTrip(x, &v1, &v2, []int{v16kRoach}, false, false, nz <= 1)
 			res.Nontrivial = res.Nontrivial || v16Nontrivial(v1.roach)
 			res.Desc = fmt.Sprintf("ROACH %+v", v1.roach)
 			return res
